@@ -1252,3 +1252,52 @@ Proof.
   - destruct (conv_elem k1 k2 v); cbn in Hc; congruence.
   - rewrite Hc. reflexivity.
 Qed.
+
+(* ------------------------------------------------------------------ *)
+(* 13. the judge of a whole case line *)
+(* ------------------------------------------------------------------ *)
+(* the whole case line: source observed in step 1, annotated definition observed in step 2 *)
+Definition case_spec (fm : form) (k2 : kind) (dims : option (nat * nat)) (o1 o2 : sx) : Prop :=
+  match decode_obs o1 with
+  | OVal (KS kn e) =>
+      exists k1 v, kind_of_string kn = Some k1 /\ decode_payload k1 e = Some v /\ wf_val k1 v = true /\
+                   value_spec k1 v k2 (decode_obs o2)
+  | OVal (KM kn m) =>
+      exists k1 vs, kind_of_string kn = Some k1 /\ map_opt (decode_payload k1) (mdata m) = Some vs /\
+        match fm with
+        | FMat => mat_spec k1 m vs k2 dims (decode_obs o2)
+        | FSet => set_spec k1 vs k2 o2
+        | _ => False
+        end
+  | _ => False
+  end.
+
+Theorem judge_convert_sound (kfa : kfa_t) (fs ks : string) (dx t o1 s1 o2 s2 : sx) (tag : string) :
+  judge_convert kfa (Lx [Lx [Ax "conv"; Ax fs; Ax ks; dx; t];
+                         Lx [Ax "session"; Lx [Ax "step"; o1; s1]; Lx [Ax "step"; o2; s2]]]) = v_ok tag ->
+  exists fm k2 dims, form_of_string fs = Some fm /\ kind_of_string ks = Some k2 /\ decode_dims dx = Some dims /\
+                     case_spec fm k2 dims o1 o2.
+Proof.
+  intro H. cbn [judge_convert] in H.
+  destruct (form_of_string fs) as [fm|]; [|no_ok].
+  destruct (kind_of_string ks) as [k2|]; [|no_ok].
+  destruct (decode_dims dx) as [dims|]; [|no_ok].
+  exists fm, k2, dims. repeat split. unfold case_spec.
+  destruct (decode_obs o1) as [[kn e|kn m]| | | |x]; try no_ok.
+  - destruct (kind_of_string kn) as [k1|]; [|no_ok].
+    destruct (decode_payload k1 e) as [v|] eqn:De; [|destruct fm; no_ok].
+    assert (G : (if wf_val k1 v then judge_value kfa fm false k1 v k2 (decode_obs o2) else v_adv "ill-formed-source") = v_ok tag ->
+                exists k0 v0, Some k1 = Some k0 /\ decode_payload k0 e = Some v0 /\ wf_val k0 v0 = true /\
+                              value_spec k0 v0 k2 (decode_obs o2)).
+    { destruct (wf_val k1 v) eqn:W; [|intro; no_ok]. intro J. exists k1, v. repeat split; try assumption.
+      exact (judge_value_sound _ _ _ _ _ _ _ _ J). }
+    destruct fm; try no_ok; exact (G H).
+  - destruct (kind_of_string kn) as [k1|]; [|no_ok]. exists k1.
+    destruct (map_opt (decode_payload k1) (mdata m)) as [vs|] eqn:M.
+    + exists vs. repeat split. destruct fm; try no_ok.
+      * exact (judge_mat_sound _ _ _ _ _ _ _ _ M H).
+      * exact (judge_set_sound _ _ _ _ _ _ M H).
+    + exfalso. destruct fm; try no_ok.
+      * unfold judge_mat in H. rewrite M in H. no_ok.
+      * unfold judge_set in H. rewrite M in H. no_ok.
+Qed.
